@@ -10,7 +10,7 @@ import (
 	"github.com/facebookincubator/dns/dnsrocks/zzverif/nd"
 )
 
-//verif:harness H19_window property=C19 native=no quick=k=1,t=1;k=2,t=1;k=2,t=2;k=3,t=1 thorough=k=3,t=2;k=3,t=3;k=4,t=2;k=5,t=1
+//verif:harness H19_window property=C19 native=no quick=k=1,t=1;k=2,t=1;k=2,t=2;k=3,t=1 thorough=k=2,t=2;k=3,t=1
 //verif:subst H19_window time.Now github.com/facebookincubator/dns/dnsrocks/metrics.verifNow
 //verif:subst H19_window time.NewTicker github.com/facebookincubator/dns/dnsrocks/metrics.verifNewTicker
 
